@@ -176,7 +176,7 @@ def run(res):
     thorough = res.tier == "thorough"
     from props.theorems import THEOREMS
     prove_obligations(res, THEOREMS.get("C18", []))
-    g_cases = lattice_cases(rng, 20000 if thorough else 1500) + [c for c in c01_cases(rng, 8000 if thorough else 600, max_n=300) if c["gcds"] == 1]
+    g_cases = lattice_cases(rng, 20000 if thorough else 1500) + repeated_lattice_cases(rng, 200 if thorough else 16) + [c for c in c01_cases(rng, 8000 if thorough else 600, max_n=300) if c["gcds"] == 1]
     s_cases = sparse_cases(rng, 1500 if thorough else 120)
     p_cases = poly_cases(rng, 6000 if thorough else 500)
     out = pl.run_pipeline(res, g_cases + s_cases + p_cases, want_spec=False, want_model_reader=False, want_writer=False)
